@@ -209,7 +209,7 @@ def inprocess(ctx):
             if e["ev"] == "ssend" and e["kind"] == "resp":
                 real.setdefault(e["id"], []).append(L.resp_kind(e))
         panics = [e["msg"] for e in r["events"] if e["ev"] == "panic"]
-        nontrivial = len([s for s in run["steps"] if s["op"] != "finish"]) >= 3
+        nontrivial = len([s for s in run["steps"] if s["op"] not in ("finish", "respond", "remove")]) >= 3
         classes = tuple((h["a"], h.get("m", {}).get("k"), h.get("m", {}).get("cls"), h.get("m", {}).get("id"), h.get("id"))
                         for h in beh["hist"])
         ctx.count((classes, tuple(sorted(i["method"] for i in info.values()))), nontrivial=nontrivial)
